@@ -371,7 +371,8 @@ pub fn gen_c13(args: &Args) {
         let _ = r;
     };
     let site45 = |r: &mut Rng| {
-        let mut s = rand_site(r, 450_000, 2);
+        // zones up to 3 h off the meridian: Isha may cross civil midnight (still the same evening's event)
+        let mut s = rand_site(r, 450_000, 3);
         if r.chance(1, 2) {
             // make sure the Asr band 25..45 and the Fajr/Isha band <= 40 are well populated
             let l = r.range(250_000, 400_000);
